@@ -19,3 +19,194 @@ package config
 //@ func type.StringArrayOption
 //@   trusted
 //@   pure
+
+// ---- C04: getters return the layered, validated, current value
+
+//@ spec levelOf(s string) int32 = s == ReleaseLevelNameBeta ? 1 : (s == ReleaseLevelNameExperimental ? 2 : 0)
+
+// the value of an option by layers: user value, else default layer, else registered default
+//@ spec effective(o *Option) *valueCache = o.activeValue != nil ? o.activeValue : (o.activeDefaultValue != nil ? o.activeDefaultValue : o.activeFallbackValue)
+
+// what a getter must see: the user value only if the option's release level is enabled
+//@ spec layered(o *Option) *valueCache = (o.ReleaseLevel <= ReleaseLevel(deref(releaseLevel)) && o.activeValue != nil) ? o.activeValue : (o.activeDefaultValue != nil ? o.activeDefaultValue : o.activeFallbackValue)
+
+//@ func GetOption
+//@   trusted
+//@   pure
+//@   ensures (r1 == nil) == (r0 != nil)
+
+//@ func getTypeName
+//@   trusted
+//@   pure
+
+//@ func getReleaseLevel
+//@   requires releaseLevel != nil
+//@   pure
+//@   ensures r0 == ReleaseLevel(deref(releaseLevel))
+
+// the effective release level follows the same layering as every other option
+//@ func updateReleaseLevel
+//@   requires releaseLevelOption != nil && releaseLevelOption.activeFallbackValue != nil && releaseLevel != nil
+//@   modifies deref(releaseLevel)
+//@   ensures deref(releaseLevel) == levelOf(effective(releaseLevelOption).stringVal)
+
+//@ func getValueCache
+//@   requires releaseLevel != nil
+//@   pure
+//@   ensures option != nil ==> r0 == option
+//@   ensures r0 == nil ==> r1 == nil
+//@   ensures r0 != nil && requestedType != r0.OptType ==> r1 == nil
+//@   ensures r0 != nil && requestedType == r0.OptType ==> r1 == layered(r0)
+
+//@ func getValidityFlag
+//@   pure
+//@   ensures r0 == validityFlag
+
+// a change invalidates the flag every getter holds and installs a fresh valid one - in this order
+//@ func signalChanges
+//@   requires validityFlag != nil
+//@   nopanic off
+//@   modifies *
+//@   ghost var oldf *abool.AtomicBool = validityFlag
+//@   ghost var cleared bool = false
+//@   at call (*AtomicBool).SetTo assert arg0 == oldf && arg1 == false
+//@   at call (*AtomicBool).SetTo ghost cleared = true
+//@   at store validityFlag assert cleared && value != nil && value != oldf && isSet(value)
+
+// getters: while their validity flag is set they return the cached value; otherwise they first
+// fetch the new flag, then the current layered value (fallback if there is none)
+//@ func GetAsString$1
+//@   requires valid != nil && releaseLevel != nil
+//@   nopanic off
+//@   modifies *
+//@   ghost var refreshed bool = false
+//@   ghost var reflagged bool = false
+//@   ghost var vc2 *valueCache = nil
+//@   at after getValidityFlag ghost reflagged = true
+//@   at call getValueCache assert reflagged && arg0 == name && arg1 == option && arg2 == OptTypeString
+//@   at after getValueCache ghost refreshed = true
+//@   at after getValueCache ghost vc2 = ret1
+//@   ensures refreshed == !old(isSet(valid))
+//@   ensures !refreshed ==> r0 == value
+//@   ensures refreshed ==> r0 == (vc2 != nil ? vc2.stringVal : fallback)
+
+//@ func GetAsInt$1
+//@   requires valid != nil && releaseLevel != nil
+//@   nopanic off
+//@   modifies *
+//@   ghost var refreshed bool = false
+//@   ghost var reflagged bool = false
+//@   ghost var vc2 *valueCache = nil
+//@   at after getValidityFlag ghost reflagged = true
+//@   at call getValueCache assert reflagged && arg0 == name && arg1 == option && arg2 == OptTypeInt
+//@   at after getValueCache ghost refreshed = true
+//@   at after getValueCache ghost vc2 = ret1
+//@   ensures refreshed == !old(isSet(valid))
+//@   ensures !refreshed ==> r0 == value
+//@   ensures refreshed ==> r0 == (vc2 != nil ? vc2.intVal : fallback)
+
+//@ func GetAsBool$1
+//@   requires valid != nil && releaseLevel != nil
+//@   nopanic off
+//@   modifies *
+//@   ghost var refreshed bool = false
+//@   ghost var reflagged bool = false
+//@   ghost var vc2 *valueCache = nil
+//@   at after getValidityFlag ghost reflagged = true
+//@   at call getValueCache assert reflagged && arg0 == name && arg1 == option && arg2 == OptTypeBool
+//@   at after getValueCache ghost refreshed = true
+//@   at after getValueCache ghost vc2 = ret1
+//@   ensures refreshed == !old(isSet(valid))
+//@   ensures !refreshed ==> r0 == value
+//@   ensures refreshed ==> r0 == (vc2 != nil ? vc2.boolVal : fallback)
+
+//@ func GetAsStringArray$1
+//@   requires valid != nil && releaseLevel != nil
+//@   nopanic off
+//@   modifies *
+//@   ghost var refreshed bool = false
+//@   ghost var reflagged bool = false
+//@   ghost var vc2 *valueCache = nil
+//@   at after getValidityFlag ghost reflagged = true
+//@   at call getValueCache assert reflagged && arg0 == name && arg1 == option && arg2 == OptTypeStringArray
+//@   at after getValueCache ghost refreshed = true
+//@   at after getValueCache ghost vc2 = ret1
+//@   ensures refreshed == !old(isSet(valid))
+//@   ensures !refreshed ==> r0 == value
+//@   ensures refreshed ==> r0 == (vc2 != nil ? vc2.stringArrayVal : fallback)
+
+// setters: an invalid value leaves the option unchanged and is reported; a valid one is installed,
+// then (and only then) the change is signalled
+//@ func setConfigOption
+//@   nopanic off
+//@   modifies *
+//@   ghost var validated bool = false
+//@   ghost var vc *valueCache = nil
+//@   ghost var verr *ValidationError = nil
+//@   ghost var updated bool = false
+//@   ghost var signalled int = 0
+//@   ghost var opt *Option = nil
+//@   at after GetOption ghost opt = ret0
+//@   at call validateValue assert arg0 == opt
+//@   at after validateValue ghost validated = true
+//@   at after validateValue ghost vc = ret0
+//@   at after validateValue ghost verr = ret1
+//@   at store activeValue assert (validated && verr == nil && value == vc) || (!validated && value == nil)
+//@   at store activeValue ghost updated = true
+//@   at call signalChanges assert (updated || (validated && verr == nil)) && !(validated && verr != nil)
+//@   at call signalChanges ghost signalled = signalled + 1
+//@   ensures validated && verr != nil ==> err != nil && !updated && signalled == 0
+//@   ensures opt != nil && !(validated && verr != nil) ==> signalled == 1 && updated
+
+//@ func setDefaultConfigOption
+//@   nopanic off
+//@   modifies *
+//@   ghost var validated bool = false
+//@   ghost var vc *valueCache = nil
+//@   ghost var verr *ValidationError = nil
+//@   ghost var updated bool = false
+//@   ghost var signalled int = 0
+//@   ghost var opt *Option = nil
+//@   at after GetOption ghost opt = ret0
+//@   at call validateValue assert arg0 == opt
+//@   at after validateValue ghost validated = true
+//@   at after validateValue ghost vc = ret0
+//@   at after validateValue ghost verr = ret1
+//@   at store activeDefaultValue assert (validated && verr == nil && value == vc) || (!validated && value == nil)
+//@   at store activeDefaultValue ghost updated = true
+//@   at call signalChanges assert !(validated && verr != nil)
+//@   at call signalChanges ghost signalled = signalled + 1
+//@   ensures validated && verr != nil ==> err != nil && !updated && signalled == 0
+//@   ensures opt != nil && !(validated && verr != nil) ==> signalled == 1 && updated && err == nil
+
+// whole-layer replace, per option: the user value is cleared and then set to exactly the validated
+// value if the map has a valid entry; invalid entries are reported
+//@ func ReplaceConfig$1
+//@   nopanic off
+//@   modifies *
+//@   ghost var validated bool = false
+//@   ghost var vc *valueCache = nil
+//@   ghost var verr *ValidationError = nil
+//@   ghost var stores int = 0
+//@   at call validateValue assert ok && arg0 == option
+//@   at after validateValue ghost validated = true
+//@   at after validateValue ghost vc = ret0
+//@   at after validateValue ghost verr = ret1
+//@   at store activeValue assert stores == 0 ? value == nil : (stores == 1 && validated && verr == nil && value == vc)
+//@   at store activeValue ghost stores = stores + 1
+//@   at return assert stores == ((ok && verr == nil) ? 2 : 1)
+
+//@ func ReplaceDefaultConfig$1
+//@   nopanic off
+//@   modifies *
+//@   ghost var validated bool = false
+//@   ghost var vc *valueCache = nil
+//@   ghost var verr *ValidationError = nil
+//@   ghost var stores int = 0
+//@   at call validateValue assert ok && arg0 == option
+//@   at after validateValue ghost validated = true
+//@   at after validateValue ghost vc = ret0
+//@   at after validateValue ghost verr = ret1
+//@   at store activeDefaultValue assert stores == 0 ? value == nil : (stores == 1 && validated && verr == nil && value == vc)
+//@   at store activeDefaultValue ghost stores = stores + 1
+//@   at return assert stores == ((ok && verr == nil) ? 2 : 1)
